@@ -1,6 +1,7 @@
 use crate::common::run::Run;
 pub mod c01;
 pub mod c02;
+pub mod c03;
 pub mod c04;
 pub mod c05;
 pub mod c06;
@@ -24,6 +25,7 @@ pub fn lookup(id: &str) -> Option<fn(&Run)> {
     Some(match id {
         "C01" => c01::run,
         "C02" => c02::run,
+        "C03" => c03::run,
         "C04" => c04::run,
         "C05" => c05::run,
         "C06" => c06::run,
